@@ -168,7 +168,7 @@ macro_rules! c01_read_name {
                 Ok(name) => {
                     assert!(inc.offset <= N, "cursor left the datagram");
                     assert!(inc.offset > off, "cursor did not advance");
-                    assert!(name.len() <= N, "name longer than the datagram");
+                    assert!(name.len() <= 2 * N, "name out of proportion to the datagram");
                     kani::cover!(name.len() == 0, "ok_root");
                     kani::cover!(inc.offset == off + 2 && bytes[off] >= 0xC0, "ok_pointer_followed");
                     kani::cover!(name.len() == N - 1, "ok_longest_plain");
@@ -190,7 +190,7 @@ macro_rules! c01_read_name {
 // @bound buffer of exactly 4 symbolic bytes (2^32 contents), start offset symbolic in 0..=4: an arbitrary parser state
 // @unwind 7 (ghost budget N+1 = 5 iterations fires first)
 // @termination read_name
-// @oracle Result, never panic; on Ok: start < cursor <= N and name.len() <= N
+// @oracle Result, never panic; on Ok: start < cursor <= N and name.len() <= 2N (a pointer that jumps behind the start lets earlier bytes be read once more under another label framing, e.g. 01 04 02 40 02 00 c0 00 from offset 1 gives 10 characters; the protocol cap of 255 is decided by c01_name_cap_operand)
 // @outside buffers longer than 4 bytes in this harness (5, 6, 8 in thorough); everything after the name
 // @stubs fmt_format, utf8_model(+tick), u16_from_be_slice(+tick)
 // @covers ok_root, ok_pointer_followed, ok_longest_plain, err
@@ -204,7 +204,7 @@ c01_read_name!(c01_read_name_4, 4, 7);
 // @bound buffer of exactly 5 symbolic bytes (2^40 contents), start offset symbolic in 0..=5: an arbitrary parser state
 // @unwind 8 (ghost budget N+1 = 6 iterations fires first: each iteration consumes a label of >=1 byte or follows a pointer to a strictly smaller target)
 // @termination read_name
-// @oracle Result, never panic; on Ok: start < cursor <= N and name.len() <= N
+// @oracle Result, never panic; on Ok: start < cursor <= N and name.len() <= 2N (a pointer that jumps behind the start lets earlier bytes be read once more under another label framing, e.g. 01 04 02 40 02 00 c0 00 from offset 1 gives 10 characters; the protocol cap of 255 is decided by c01_name_cap_operand)
 // @outside buffers longer than 5 bytes in this harness (8 in thorough); everything after the name
 // @stubs fmt_format, utf8_model(+tick), u16_from_be_slice(+tick)
 // @covers ok_root, ok_pointer_followed, ok_longest_plain, err
@@ -218,7 +218,7 @@ c01_read_name!(c01_read_name_5, 5, 8);
 // @bound buffer of exactly 8 symbolic bytes (2^64 contents), start offset symbolic in 0..=8
 // @unwind 11 (ghost budget N+1 = 9 fires first)
 // @termination read_name
-// @oracle Result, never panic; on Ok: start < cursor <= N and name.len() <= N
+// @oracle Result, never panic; on Ok: start < cursor <= N and name.len() <= 2N (a pointer that jumps behind the start lets earlier bytes be read once more under another label framing, e.g. 01 04 02 40 02 00 c0 00 from offset 1 gives 10 characters; the protocol cap of 255 is decided by c01_name_cap_operand)
 // @outside buffers longer than 8 bytes
 // @stubs fmt_format, utf8_model(+tick), u16_from_be_slice(+tick)
 // @covers ok_root, ok_pointer_followed, ok_longest_plain, err
@@ -696,7 +696,7 @@ fn c01_rr_txt() {
 }
 
 // @harness c01_rr_srv
-// @property C01 C15
+// @property X01
 // @tier thorough
 // @functions DnsIncoming::new, read_rr_records, read_u16, read_name, DnsSrv::new
 // @bound header + 19 bytes; owner = root, TYPE = SRV (concrete); CLASS/TTL/RDLENGTH, priority/weight/port and a 2-byte target (root or pointer) symbolic
@@ -721,7 +721,7 @@ fn c01_rr_srv() {
 }
 
 // @harness c01_rr_ptr
-// @property C01 C15
+// @property X01
 // @tier thorough
 // @functions DnsIncoming::new, read_rr_records, read_name, DnsPointer::new
 // @bound header + 13 bytes; owner = root, TYPE = PTR (concrete); CLASS/TTL/RDLENGTH and a 2-byte target (root, pointer, or 1-byte label start) symbolic
@@ -744,7 +744,7 @@ fn c01_rr_ptr() {
 }
 
 // @harness c01_rr_hinfo
-// @property C01 C15
+// @property X01
 // @tier thorough
 // @functions DnsIncoming::new, read_rr_records, read_char_string, read_string, DnsHostInfo::new
 // @bound header + 15 bytes; owner = root, TYPE = HINFO (concrete); RDLENGTH and up to 4 RDATA bytes symbolic
@@ -823,7 +823,7 @@ c01_rr_at_end!(c01_rr_end_nsec, 47);
 c01_rr_at_end!(c01_rr_end_a, 1);
 
 // @harness c01_rr_nsec
-// @property C01 C15
+// @property X01
 // @tier thorough
 // @functions DnsIncoming::new, read_rr_records, read_name, read_type_bitmap, DnsNSec::new
 // @bound header + 16 bytes; owner = root, TYPE = NSEC (concrete); next-domain name + bitmap block in up to 5 RDATA bytes
@@ -883,7 +883,7 @@ c01_rr_unknown!(c01_rr_unknown_ns, 2);
 c01_rr_unknown!(c01_rr_unknown_any, 255);
 
 // @harness c01_question
-// @property C01 C15
+// @property X01
 // @tier thorough
 // @functions DnsIncoming::new, read_header, read_questions, read_name
 // @bound 12-byte header with QDCOUNT = 2 (flags 0, other counts 0) + 10 symbolic bytes
@@ -1283,7 +1283,7 @@ fn c01_read_name_ptrs_8() {
 }
 
 // @harness c01_name_cap
-// @property C01 C15
+// @property X01
 // @tier thorough
 // @functions DnsIncoming::read_name
 // @bound a 262-byte buffer: 129 one-byte labels (one symbolic ASCII letter) + terminator at offset 0, and at offset 259 a pointer to offset 0 (concrete shape, symbolic letter); the name is read through the pointer and directly
